@@ -32,6 +32,12 @@ def admFileTarget (t : Node) (cs : List Name) : List Err :=
   (if cs ≠ [] ∧ kindAt t (parentOf cs) ≠ some true then [.ResourceNotFound] else []) ++
   (if blockedByFile t [] cs then [.DirectoryExpected] else [])
 
+/-- every condition that can hold for one valid path on its own -/
+def admAny (t : Node) (cs : List Name) : List Err :=
+  (if kindAt t cs = none then [.ResourceNotFound] else [.DestinationExists, .DirectoryExists]) ++
+  (if kindAt t cs = some true then [.FileExpected] else []) ++
+  (if kindAt t cs = some false ∨ blockedByFile t [] cs then [.DirectoryExpected] else [])
+
 def admPath (p : Str) : List Err :=
   match validate p with
   | .err e => [e]
@@ -55,7 +61,7 @@ def adm1 (t : Node) (cs : List Name) : Op → List Err
   | .writebytes _ _ | .appendbytes _ _ | .create _ _ | .touch _ => admFileTarget t cs
   | .openbin _ m =>
     match parseBinMode m with
-    | none => [.ValueError]
+    | none => .ValueError :: admFileArg t cs   -- a backend may look at the path first
     | some md =>
       admFileTarget t cs ++
       (if md.exclusive ∧ kindAt t cs ≠ none then [.FileExists] else []) ++
@@ -101,9 +107,15 @@ def adm (s : State) (op : Op) : List Err :=
     else
       let bad := op.paths.flatMap admPath
       if bad ≠ [] then
+        -- some path argument is invalid: that is a truthful report, and so is any condition
+        -- that holds for the remaining (valid) path argument on its own
+        let others := op.paths.flatMap fun p =>
+          match validate p with
+          | .ok cs => admAny s.root cs
+          | .err _ => []
         (match op with
          | .openbin _ m => if (parseBinMode m).isNone then .ValueError :: bad else bad
-         | _ => bad)
+         | _ => bad ++ others)
       else match op.paths.mapM validate with
         | .ok [cs] => adm1 s.root cs op
         | .ok [a, b] => adm2 s.root a b op
